@@ -130,4 +130,5 @@ def harness_config(inst):
         "slow_reduce_us": int(inst.get("slow_reduce_us", 0)),
         "slow_deliver_us": int(inst.get("slow_deliver_us", 0)),
         "slow_clone_us": int(inst.get("slow_clone_us", 0)),
+        "slow_effect_us": int(inst.get("slow_effect_us", 0)),
     }
